@@ -12,10 +12,12 @@ SPEC = {
                  'C33_download_job_example', 'C33_serve_handlers_total', 'C33_serve_request',
                  'C33_serve_request_example', 'C33_chain_get_blocks_total', 'C33_chain_get_blocks_example',
                  'C33_peer_handlers_total',
-                 'C33_peer_handlers_example'],
+                 'C33_peer_handlers_example',
+                 'C33_header_request_total', 'C33_block_sequences_total', 'C33_p2pstore_handlers_total',
+                 'C33_p2pstore_example'],
     'allowed_axioms': [],
     'shard': 60,
-    'check_preamble': 'From C33 Require Import C33.Model C33.Streams.\nOpen Scope Z_scope.\n',
+    'check_preamble': 'From C33 Require Import C33.Model C33.Streams C33.Store.\nOpen Scope Z_scope.\n',
     'rule': 'histories of 2-14 events (3-30 thorough) fed to the real light-broadcast component: light blocks '
             '(TxCount 1-6 with 0-8 short hashes from an alphabet of 8 keys, heights 0-5, 6 header hashes so that the '
             'duplicate filter is hit; malformed variants: nil header, TxCount in {-2^63,-1,0,2^45+1,2^62}, more/fewer/no '
@@ -59,7 +61,20 @@ SPEC = {
             'not a multiaddr; other channel; nil Message; wrong header): reply AddrFrom, end of stream / reset, address-book '
             'and blacklist effects. "net-lim": the node\'s own peer-info queries (1 s ticker of the real peer protocol, 6 '
             'peers in the routing table, 5 (12) rounds, VerLimit 6.8.9 (thorough also "", 7, 6.8.9.1, x.8)) answered with 34 '
-            'version strings / wrong header / garbage / reset: refreshed, blacklisted or nothing',
+            'version strings / wrong header / garbage / reset: refreshed, blacklisted or nothing. '
+            '"net-store": 4 fixed + 24 (500 thorough) histories of 3-7 requests in child processes against the real p2pstore '
+            'protocol (p2pstore.InitProtocol on the node host) in front of a REAL test node: blockchain module at height 3 with '
+            'recorded sequences and chunk records 0..2 written into its database, a leveldb chunk store with 12 bodies, a routing '
+            'table of the six serving hosts. Requests: old header protocol (nil Message, wrong header, garbage), signed P2PRequest '
+            'to the header / chunk-record / fetch-chunk handlers (no Headers, wrong or missing signature, other or no oneof '
+            'member, wrong header), unsigned to the shard-peer handler (Count from 20 int32 edge values, with / without key), '
+            'full-node (reads nothing), and EventGetHeaders / EventGetBlockSequences straight to the blockchain module as the rpc '
+            'module sends them; ranges from 30 int64 edge values, around 1000 / 10000, small ones. Observables per request: what '
+            'the requester reads (reset, end of stream, error reply, header heights, number of records / bodies / peers / nil and '
+            'set sequence entries), whether a writer on the routing table is blocked afterwards (probe after shard-peer and '
+            'fetch-chunk requests), the request at which the child dies. The fixed histories contain the witnesses of the '
+            'repaired findings 5-7, which must be survived; spec oracle on the implementation: survived, table never blocked, '
+            'at most 10000 headers / 1000 sequence entries per reply',
     'trusted_base': [
         'Go run-time semantics written into the model: make panics for n < 0 or n > 2^45 (8-byte elements, linux/amd64) and '
         'aborts the process (no recover) when the OS cannot provide the memory; s[i] panics for i >= len; field access '
@@ -83,8 +98,23 @@ SPEC = {
         'download job has distinct decodable peers in latency order and at most 20 heights (per-peer task limit never reached, '
         'scheduling is C35); the local blockchain module answers EventGetBlocks with an error or non-nil items; '
         'ProcGetBlockDetailsMsg is transcribed for a chain whose blocks 0..tip exist',
-        'not modelled: libp2p itself, the tx/block pubsub topics (validated inside pubsub), p2pstore and the other protocol '
-        'packages, the client side of the version query (same parse functions), event handlers fed by the local RPC: status partial',
+        'p2pstore handlers (Store.v): protobuf decoding as above (the harness decodes every P2PRequest it sends and gives the '
+        'model Headers present?, signature valid?, oneof member); signature verification is an oracle (valid = signed by the '
+        'harness with the requester\'s key over the message without the signature); ProcGetHeadersMsg, GetBlockSequences and '
+        'GetChunkRecord are transcribed for a chain whose blocks / sequences 0..tip / 0..last and chunk records 0..nrec-1 exist '
+        '(GetChunkRecord as the closed form of its loop, which ends at the first missing record); loadChunk over the local store as '
+        'a list of heights with the key order of fmt "%012d" transcribed (fmt12, bytes order); kbucket NearestPeers only as far as '
+        'its count argument goes (make with count+bucketsize under the read lock, slice to count after it; peerDistance = 40 '
+        'bytes), its result as min(count, table size); the closer-peer lists of the fetch-chunk reply, the concurrency counter '
+        '(maxConcurrency) and the extended routing table (the harness keeps it empty so that env.RoutingTable is used) are not modelled; '
+        'append of n pointers is fatal above the same capacity as make',
+        'not modelled: libp2p itself, the tx/block pubsub topics (validated inside pubsub), the asynchronous p2pstore handlers '
+        '(request/response peer-info-for-chunk, request/response peer-addr, fetch-peer-addr, fetch-active-peer) and the client '
+        'side of p2pstore (replies to the node\'s own chunk / header / record queries), the other protocol packages, the client '
+        'side of the version query (same parse functions), event handlers fed by the local RPC other than the two ranges above: '
+        'status partial. Observed, not modelled: handleStreamFetchChunk loads every body of the requested key range into memory '
+        'before it compares the count (a request Start=0, End=10^12-1 reads the whole local chunk store): bounded by the store, '
+        'not by the request',
     ],
     'assumptions': [
         'C33_recovered_paths_total / C33_no_panic_outside_recover: guard mem_ok = the operating system can provide a slice with '
@@ -95,6 +125,9 @@ SPEC = {
         'the block filter (LRU of 1024 hashes) never evicts within a history',
         'C33_serve_request / C33_chain_get_blocks_total: request fields and the chain height are int64 values (their Go type); '
         'memory for 257 resp. 1000 pointers',
+        'C33_header_request_total / C33_block_sequences_total / C33_p2pstore_handlers_total: request fields, chain height and last '
+        'sequence are int64 values, ReqPeers.Count an int32 (their Go types); memory for 10000 pointers and for one 40-byte '
+        'record per peer of the routing table plus 20 (env_ok)',
     ],
     'manifest': {
         'level_text': 'partial: proved for the modelled index/allocation/nil logic of the light-block and peer-message paths '
@@ -105,13 +138,21 @@ SPEC = {
                       'repair - the int64 range test wrapped for a huge negative start and the request reached a fatal allocation '
                       'in the blockchain module - every int64 request is survived and every forwarded range has a non-negative '
                       'start and at most 257 heights; ProcGetBlockDetailsMsg itself answers every int64 range with an error or at most '
-                      '1000 blocks) and of the version / version-limit handlers (total); everything else is outside the model',
+                      '1000 blocks), of the version / version-limit handlers (total) and of the p2pstore header (old and signed), chunk-record, '
+                      'fetch-chunk, shard-peer and full-node stream handlers with ProcGetHeadersMsg / GetBlockSequences / GetChunkRecord / '
+                      'loadChunk / NearestPeers behind them (after three more repairs - the same wrapped count test in ProcGetHeadersMsg '
+                      'let an unsigned header request size a slice with 2^40 pointers, in GetBlockSequences it let an rpc request append '
+                      'until memory ran out, and the shard-peer handler passed a peer\'s Count to NearestPeers, where a negative one '
+                      'panicked with the routing table\'s read lock held and a huge one asked for 86 GB - every typed request is survived, '
+                      'leaves the table unlocked and gets a reply within the limit of its kind); everything else is outside the model',
         'level_note': 'model = hand-written Gallina transcription of addLtBlock/buildPendBlock/buildPendList/pendBlockLoop/'
                       'handlePeerMsg/addBlockRequest/handleBlockReqList with explicit Go panic semantics; mempool and chain '
                       'are stubs; hook file builds the component without libp2p; Streams.v = transcription of '
                       'downloadBlockFromPeerOld/downloadBlock/handleEventDownloadBlock/checkTask, handleStreamDownloadBlock(Old), '
                       'ProcGetBlockDetailsMsg, handleStreamVersion(Old)/setExternalAddr/parseIPAndPort/checkVersionLimit into '
-                      'Done | Dropped | Panicked | Died with the recover status of each path',
+                      'Done | Dropped | Panicked | Died with the recover status of each path; Store.v = transcription of the p2pstore stream '
+                      'handlers handleStreamGetHeader(Old)/GetChunkRecord/FetchChunk/FetchShardPeers/IsFullNode with AuthenticateMessage, '
+                      'ProcGetHeadersMsg, GetBlockSequences, GetChunkRecord, loadChunk and the count handling of NearestPeers',
         'technique': 'Coq proof (invariant of the pending list by induction over event histories) + in-kernel '
                      'correspondence check, crash-prone cases in child processes',
     },
